@@ -4,6 +4,8 @@ package dataset
 
 import (
 	"encoding/binary"
+	"encoding/json"
+	"os"
 	"time"
 
 	"github.com/dgraph-io/badger/v4"
@@ -186,5 +188,178 @@ func VerifC12Compact(h *verifh.H) {
 		want = append(want, v)
 	}
 	h.Assert(server.VJoin(after.feed) == server.VJoin(want), "full feed = old feed minus versions identical to their predecessor :: after="+server.VJoin(after.feed)+" want="+server.VJoin(want))
+	h.Observe("feed", len(after.feed))
+}
+
+// vSaved is what the pre-crash part of VerifC12Crash hands to the recovery
+// part through a file (the recovery part runs in another process natively).
+type vSaved struct {
+	List, Lookup, LatestFeed, RelNow string
+	Pit, RelAt, Feed                 []string
+	Times                            []int64
+}
+
+// vDedupOf reports whether got can be obtained from feed by removing only
+// entries identical to their immediate predecessor in feed.
+func vDedupOf(feed, got []string) bool {
+	k := 0
+	for i, v := range feed {
+		if k < len(got) && got[k] == v {
+			k++
+			continue
+		}
+		if i > 0 && feed[i-1] == v {
+			continue // a removed duplicate of its predecessor
+		}
+		return false
+	}
+	return k == len(got)
+}
+
+// VerifC12Crash: the process dies after any flush of a running compaction
+// (every flush boundary is a crash candidate; flush thresholds 1 and 2 force
+// several flushes). After the restart every reader still works, the latest
+// view, lookups, current and point-in-time queries and the latest-only feed
+// are what they were before the compaction, the full feed is the old one minus
+// only versions identical to their immediate predecessor, and a later full
+// compaction finishes the job.
+func VerifC12Crash(h *verifh.H) {
+	env := server.VerifConfig(h, time.Hour)
+	file := h.TempDir() + "/c12-before.json"
+	n := 2 + h.Choice("chain", h.Param("maxChain", 3)-1)
+	vals := []string{"x", "y"}
+	refs := []string{"", "ns0:e2"}
+	type stepT struct {
+		s   vShape
+		dup int
+	}
+	var steps []stepT
+	for k := 0; k < n; k++ {
+		steps = append(steps, stepT{vShape{val: vals[h.Choice("val", 2)], ref: refs[h.Choice("ref", 2)], del: h.Choice("del", 2) == 1}, h.Choice("dups", h.Param("maxDups", 2)+1)})
+	}
+	thr := []int{1, 2}[h.Choice("threshold", 2)]
+	if h.BeforeCrash() {
+		hub := server.VerifOpenHub(env)
+		ds, err := hub.Dsm.CreateDataset("d", nil)
+		h.Assert(err == nil, "create")
+		ba := server.NewBadgerAccess(hub.Store, hub.Dsm)
+		var times []int64
+		for _, st := range steps {
+			e := vMk("ns0:e1", st.s)
+			h.Assert(ds.StoreEntities([]*server.Entity{e}) == nil, "write")
+			times = append(times, int64(e.Recorded), time.Now().UnixNano())
+			for d := 0; d < st.dup; d++ {
+				t := vLegacyDuplicate(h, hub, ba, "d", "ns0:e1")
+				times = append(times, int64(t), time.Now().UnixNano())
+			}
+		}
+		o := vObserve(h, hub, times)
+		b, err := json.Marshal(&vSaved{o.list, o.lookup, o.latestFeed, o.relNow, o.pit, o.relAt, o.feed, times})
+		h.Assert(err == nil, "observation serialises")
+		h.Assert(os.WriteFile(file, b, 0o644) == nil, "observation saved")
+		strategy := &deduplicationStrategy{counts: make(map[string]int), changeBuffer: make(map[[24]byte]byte), flushAfter: thr}
+		worker := NewCompactor(hub.Store, hub.Dsm, hub.Env.Logger)
+		h.CrashWindowStart()
+		h.Assert(worker.compact("d", strategy) == nil, "compaction succeeds")
+	}
+	h.CrashAndRecover()
+	hub := server.VerifOpenHub(env)
+	b, err := os.ReadFile(file)
+	h.Assert(err == nil, "saved observation readable")
+	before := &vSaved{}
+	h.Assert(json.Unmarshal(b, before) == nil, "saved observation parses")
+	check := func(when string, full bool) {
+		after := vObserve(h, hub, before.Times)
+		h.Assert(after.list == before.List, "latest view unchanged :: "+when+" before="+before.List+" after="+after.list)
+		h.Assert(after.lookup == before.Lookup, "entity lookup unchanged :: "+when)
+		h.Assert(server.VJoin(after.pit) == server.VJoin(before.Pit), "point-in-time lookups unchanged :: "+when+" before="+server.VJoin(before.Pit)+" after="+server.VJoin(after.pit))
+		h.Assert(after.relNow == before.RelNow, "current relationship queries unchanged :: "+when)
+		h.Assert(server.VJoin(after.relAt) == server.VJoin(before.RelAt), "point-in-time relationship queries unchanged :: "+when)
+		h.Assert(after.latestFeed == before.LatestFeed, "latest-only feed unchanged :: "+when)
+		h.Assert(vDedupOf(before.Feed, after.feed), "full feed = old feed minus only versions identical to their predecessor :: "+when+" after="+server.VJoin(after.feed)+" old="+server.VJoin(before.Feed))
+		if full {
+			var want []string
+			for k, v := range before.Feed {
+				if k > 0 && before.Feed[k-1] == v {
+					continue
+				}
+				want = append(want, v)
+			}
+			h.Assert(server.VJoin(after.feed) == server.VJoin(want), "a completed compaction removed every adjacent duplicate :: "+when+" after="+server.VJoin(after.feed)+" want="+server.VJoin(want))
+		}
+	}
+	check("after the crash", h.Acked())
+	strategy := &deduplicationStrategy{counts: make(map[string]int), changeBuffer: make(map[[24]byte]byte), flushAfter: thr}
+	h.Assert(NewCompactor(hub.Store, hub.Dsm, hub.Env.Logger).compact("d", strategy) == nil, "a compaction after the crash succeeds")
+	check("after the follow-up compaction", true)
+	h.Observe("acked", h.Acked())
+}
+
+// VerifC12Race: a writer stores a new version of the entity while the
+// compaction runs (symbolic scheduling at the compaction and write-path
+// boundaries). Afterwards the latest view, lookup, current relationship
+// queries and latest-only feed are those of the same history plus the write
+// without any compaction (reference hub), point-in-time answers for the old
+// instants are unchanged, and the full feed is the reference feed minus only
+// versions identical to their immediate predecessor.
+func VerifC12Race(h *verifh.H) {
+	n := 1 + h.Choice("chain", h.Param("maxChain", 2))
+	vals := []string{"x", "y"}
+	refs := []string{"", "ns0:e2"}[:h.Param("refs", 2)]
+	type stepT struct {
+		s   vShape
+		dup int
+	}
+	var steps []stepT
+	for k := 0; k < n; k++ {
+		steps = append(steps, stepT{vShape{val: vals[h.Choice("val", 2)], ref: refs[h.Choice("ref", len(refs))], del: h.Choice("del", 2) == 1}, h.Choice("dups", h.Param("maxDups", 1)+1)})
+	}
+	w := vShape{val: vals[h.Choice("wval", 2)], ref: refs[h.Choice("wref", len(refs))], del: h.Choice("wdel", 2) == 1}
+	thr := []int{1, 100000}[h.Choice("threshold", 2)]
+	build := func(hub *server.VHub) []int64 {
+		ds, err := hub.Dsm.CreateDataset("d", nil)
+		h.Assert(err == nil, "create")
+		ba := server.NewBadgerAccess(hub.Store, hub.Dsm)
+		var times []int64
+		for _, st := range steps {
+			e := vMk("ns0:e1", st.s)
+			h.Assert(ds.StoreEntities([]*server.Entity{e}) == nil, "write")
+			times = append(times, int64(e.Recorded), time.Now().UnixNano())
+			for d := 0; d < st.dup; d++ {
+				t := vLegacyDuplicate(h, hub, ba, "d", "ns0:e1")
+				times = append(times, int64(t), time.Now().UnixNano())
+			}
+		}
+		return times
+	}
+	// reference: the same history plus the write, never compacted
+	env2 := server.VerifConfig(h, time.Hour)
+	env2.StoreLocation = h.TempDir() + "/store-ref"
+	ref := server.VerifOpenHub(env2)
+	build(ref)
+	h.Assert(ref.Dsm.GetDataset("d").StoreEntities([]*server.Entity{vMk("ns0:e1", w)}) == nil, "reference write")
+	want := vObserve(h, ref, nil)
+
+	hub := server.VerifNewHub(h)
+	times := build(hub)
+	before := vObserve(h, hub, times)
+	ds := hub.Dsm.GetDataset("d")
+	strategy := &deduplicationStrategy{counts: make(map[string]int), changeBuffer: make(map[[24]byte]byte), flushAfter: thr}
+	worker := NewCompactor(hub.Store, hub.Dsm, hub.Env.Logger)
+	var cerr, werr error
+	h.SymbolicSched(h.Param("preemptions", 2))
+	h.Go(func() { cerr = worker.compact("d", strategy) })
+	h.Go(func() { werr = ds.StoreEntities([]*server.Entity{vMk("ns0:e1", w)}) })
+	h.Assert(h.Wait(), "compaction and writer complete")
+	h.Assert(cerr == nil, "compaction succeeds while a write is in flight")
+	h.Assert(werr == nil, "the write succeeds while compaction runs")
+	after := vObserve(h, hub, times)
+	h.Assert(after.list == want.list, "latest view is the one the write produces, compaction invisible :: got="+after.list+" want="+want.list)
+	h.Assert(after.lookup == want.lookup, "entity lookup as without compaction :: got="+after.lookup+" want="+want.lookup)
+	h.Assert(after.relNow == want.relNow, "current relationship queries as without compaction :: got="+after.relNow+" want="+want.relNow)
+	h.Assert(after.latestFeed == want.latestFeed, "latest-only feed as without compaction :: got="+after.latestFeed+" want="+want.latestFeed)
+	h.Assert(server.VJoin(after.pit) == server.VJoin(before.pit), "point-in-time lookups for the old instants unchanged :: before="+server.VJoin(before.pit)+" after="+server.VJoin(after.pit))
+	h.Assert(server.VJoin(after.relAt) == server.VJoin(before.relAt), "point-in-time relationship queries for the old instants unchanged")
+	h.Assert(vDedupOf(want.feed, after.feed), "full feed = uncompacted feed minus only versions identical to their predecessor :: got="+server.VJoin(after.feed)+" uncompacted="+server.VJoin(want.feed))
 	h.Observe("feed", len(after.feed))
 }
